@@ -169,3 +169,46 @@ def _count_calls(ctx, f, info, summaries):
                 # the tail call itself happens in this block's terminator
                 counts = {min(c + 1, 2) for c in counts}
             info.ok_counts[(bb, idx, cls, getattr(node, "sp", None))] = counts
+
+
+def swallowed_failures(ctx, info):
+    """wrapper call sites whose failure can end in a successful return: an
+    Ok(..)/Some(..)-valued exit of the wrapper that is (feasibly) reachable from
+    the Err outcome of `self.<mutator>(..)`.  Returns [(callee, sp)]."""
+    from kernel import feasible_reach, strip
+    f = info.fn
+    an = ctx.an(f)
+    cfg = an.cfg
+    summaries = getattr(ctx, "_summaries", None)
+    if summaries is None:
+        return []
+    ea = EffectAnalysis(ctx, f, summaries)
+    ok_blocks = set()
+    for bb, idx, e, node in ea.ret_sites():
+        for cls, x in ea.classify_ret(e):
+            if cls == "Ok":
+                ok_blocks.add(bb)
+    out = []
+    for cb, t, tgt in info.calls:
+        r = an.call_expr(t, cb)
+        for n in cfg.nodes:
+            si = an.switch_info(n)
+            if si is None or si[0].k != "discr" or not si[3]:
+                continue
+            cond, targets, otherwise, names = si
+            c = strip(cond.a[0])
+            via_branch = c.k == "call" and c.a[0].name == "branch" and c.a[0].trait == "std::ops::Try" and c.a[1] and strip(c.a[1][0]).k == "call" and strip(c.a[1][0]).site == cb and strip(c.a[1][0]).a[0].full == t.callee.full
+            direct = c.k == "call" and c.site == cb and c.a[0].full == t.callee.full
+            if not (via_branch or direct):
+                continue
+            bad_label = "Break" if via_branch else "Err"
+            listed = set(v for v, _ in targets)
+            err_targets = [tb for v, tb in targets if names.get(v) == bad_label]
+            if any(nm == bad_label and v not in listed for v, nm in names.items()):
+                err_targets.append(otherwise)
+            for tb in err_targets:
+                env = {}
+                if ok_blocks & feasible_reach(an, tb, env):
+                    out.append((tgt, t.sp))
+    return out
+
